@@ -499,12 +499,15 @@ def mk_ll_shapes(op_name, shape):
     return case
 
 
-def mk_ll_mixed_skew(op_name):
-    """collection of two pairs: pair 0 coplanar (symbolic, common point), pair 1 skew (concrete) => NotCoplanar"""
+def mk_ll_mixed_skew(op_name, concrete=False):
+    """collection of two pairs: pair 0 coplanar (symbolic, common point; or lattice), pair 1 skew (concrete) => NotCoplanar"""
     def case(ctx):
         from geometer import LineCollection, join, meet
         from geometer.exceptions import LinearDependenceError, NotCoplanar
-        a, b, c = (vec(ctx, n, 4) for n in "abc")
+        if concrete:
+            a, b, c = ctx.const([1, 2, 0, 1], float), ctx.const([0, 1, 3, 1], float), ctx.const([2, -1, 1, 1], float)
+        else:
+            a, b, c = (vec(ctx, n, 4) for n in "abc")
         ctx.assume(ctx.neg(_dep(ctx, [E(a), E(b)])))
         ctx.assume(ctx.neg(_dep(ctx, [E(a), E(c)])))
         l0, m0 = line3_from_points(ctx, a, b), line3_from_points(ctx, a, c)
@@ -596,6 +599,8 @@ def all_cases(tier):
     for shp in ("c2_s", "s_c2", "c2x1", "c2x2"):
         cs.append((f"meet3d_ll_{shp}", mk_ll_shapes("meet", shp), dict(tiers=Q)))
         cs.append((f"join3d_ll_{shp}", mk_ll_shapes("join", shp), dict(tiers=Q if shp in ("c2_s", "c2x1") else T)))
+    cs.append(("meet3d_ll_mixed_skew_lattice", mk_ll_mixed_skew("meet", True), dict(tiers=Q)))
+    cs.append(("join3d_ll_mixed_skew_lattice", mk_ll_mixed_skew("join", True), dict(tiers=Q)))
     cs.append(("meet3d_ll_mixed_skew", mk_ll_mixed_skew("meet"), dict(tiers=Q)))
     cs.append(("join3d_ll_mixed_skew", mk_ll_mixed_skew("join"), dict(tiers=Q)))
     cs.append(("meet3d_ll_c2_1sym", mk_coll_lines3d("meet", 1), dict(tiers=Q)))
